@@ -8,7 +8,9 @@
    NOT proved (no refutation known on the current tree; before fix 884aa7b both were refuted through `roughly`):
      C09_merge_exact : forall a b m v, merge D f a b = MOk m -> valid m v -> valid a v /\ valid b v
      C09_merge_all_perm : Permutation L L' -> valid (merge_all L) v = valid (merge_all L') v
-   What is proved for ALL schemas of a fragment and ALL instances is `_partial`:
+   EXACTNESS (both directions), never-soundness, merge_all and permutation equivalence are proved on the object
+   fragment [obj_frag] (C09_merge_sound_obj, C09_merge_never_obj, C09_merge_all_exact_obj,
+   C09_merge_all_perm_equiv); the older one-directional theorems below stay as `_partial`:
      - the scalar fragment [sfrag] (type lists without `number`, enum/const of non-float scalars,
        number/string validation; nothing else), for merge and for merge_all on lists;
      - the object fragment [ofrag] (nested objects with required, additionalProperties absent/true/false,
@@ -113,6 +115,77 @@ Theorem C09_merge_all_obj_sound_partial :
     end.
 Proof. exact merge_all_ofrag_sound. Qed.
 
+(* ---------------------------------------------------------------- EXACTNESS on the object fragment [obj_frag]
+   FULL statements (for all schemas of merge.rs's input language), refuted on the faithful model — see the
+   `_refuted` witnesses below and findings F1, F3, F5-F11:
+     merge D f a b = MOk m  -> forall v, valid m v = valid a v && valid b v
+     merge D f a b = MNever -> forall v, valid a v && valid b v = false
+     Permutation L L' -> instances (merge_all L) = instances (merge_all L')
+   Proved for ALL a, b (lists L) of the decidable fragment [obj_frag tx] (Algo/Merge.v), ALL well-formed
+   instances (unique object keys, as serde_json produces them), ALL fuels, any validity options / definitions.
+   Keywords in the fragment, hereditarily: type . enum / const (non-float scalars) . properties (unique names) .
+   required . additionalProperties absent | true | false | schema . min/maxProperties . allOf . nested objects.
+   Exclusion classes (each the decidable complement of a recorded refutation):
+     Known_F1 = `integer` and `number` both occur -> [tx] in {TNumber, TInteger} is the type that does NOT occur;
+     object keyword group without "type":"object" (C09_merge_never_refuted_untyped);
+     format; array keywords (F5, F7); number / string validation; $ref (roughly); anyOf / oneOf / not (F3, F10);
+     float enum literals (F11, serde `==`).  F6, F8, F9 are defects of the conversion of the merged schema, or need
+     three members in an order-dependent way that the MERGE's instance set does not show: they are not exclusions. *)
+Theorem C09_merge_sound_obj :
+  forall (re_match fmt_ok : ustring -> ustring -> bool) (o : vopts) (DV : defs) (n : nat)
+         (tx : itype) (D : defs) (f : nat) (a b m : schema),
+    tx = TNumber \/ tx = TInteger ->
+    obj_frag tx a = true -> obj_frag tx b = true -> merge D f a b = MOk m ->
+    obj_frag tx m = true /\
+    forall v, wf_json v = true ->
+              validx re_match fmt_ok o DV n m v = validx re_match fmt_ok o DV n a v && validx re_match fmt_ok o DV n b v.
+Proof. exact merge_sound_obj. Qed.
+
+Theorem C09_merge_never_obj :
+  forall (re_match fmt_ok : ustring -> ustring -> bool) (o : vopts) (DV : defs) (n : nat)
+         (tx : itype) (D : defs) (f : nat) (a b : schema),
+    tx = TNumber \/ tx = TInteger ->
+    obj_frag tx a = true -> obj_frag tx b = true -> merge D f a b = MNever ->
+    forall v, wf_json v = true ->
+              validx re_match fmt_ok o DV n a v && validx re_match fmt_ok o DV n b v = false.
+Proof. exact merge_never_obj. Qed.
+
+(* the same with Spec/Valid.v's three-valued discipline: Valid = definite at some fuel and true *)
+Theorem C09_merge_sound_obj_Valid :
+  forall (re_match fmt_ok : ustring -> ustring -> bool) (DV : defs) (tx : itype),
+    tx = TNumber \/ tx = TInteger ->
+    forall (D : defs) (f : nat) (a b m : schema) (v : json),
+      obj_frag tx a = true -> obj_frag tx b = true -> merge D f a b = MOk m -> wf_json v = true ->
+      (Valid re_match fmt_ok DV m v <-> Valid re_match fmt_ok DV a v /\ Valid re_match fmt_ok DV b v).
+Proof. exact merge_frag_exact_Valid. Qed.
+
+Theorem C09_merge_never_obj_Valid :
+  forall (re_match fmt_ok : ustring -> ustring -> bool) (DV : defs) (tx : itype),
+    tx = TNumber \/ tx = TInteger ->
+    forall (D : defs) (f : nat) (a b : schema) (v : json),
+      obj_frag tx a = true -> obj_frag tx b = true -> merge D f a b = MNever -> wf_json v = true ->
+      ~ (Valid re_match fmt_ok DV a v /\ Valid re_match fmt_ok DV b v).
+Proof. exact merge_frag_never_Valid. Qed.
+
+(* merge_all on a list of any length is exact, and therefore order independent: every permutation of the list
+   merges to the SAME INSTANCE SET (never = the empty set); the merged schemas may differ syntactically *)
+Theorem C09_merge_all_exact_obj :
+  forall (re_match fmt_ok : ustring -> ustring -> bool) (o : vopts) (DV : defs) (n : nat) (tx : itype),
+    tx = TNumber \/ tx = TInteger ->
+    forall (D : defs) (f : nat) (L : list schema) (v : json),
+      L <> [] -> forallb (obj_frag tx) L = true -> defined (merge_all D f L) = true -> wf_json v = true ->
+      inst_set re_match fmt_ok o DV n (merge_all D f L) v = forallb (fun s => validx re_match fmt_ok o DV n s v) L.
+Proof. exact merge_all_inst. Qed.
+
+Theorem C09_merge_all_perm_equiv :
+  forall (re_match fmt_ok : ustring -> ustring -> bool) (o : vopts) (DV : defs) (n : nat) (tx : itype),
+    tx = TNumber \/ tx = TInteger ->
+    forall (D : defs) (f : nat) (L L' : list schema) (v : json),
+      Permutation L L' -> forallb (obj_frag tx) L = true ->
+      defined (merge_all D f L) = true -> defined (merge_all D f L') = true -> wf_json v = true ->
+      inst_set re_match fmt_ok o DV n (merge_all D f L) v = inst_set re_match fmt_ok o DV n (merge_all D f L') v.
+Proof. exact merge_all_perm_equiv_frag. Qed.
+
 (* ---------------------------------------------------------------- refuted on the faithful model *)
 (* finding C09-F1 *)
 Theorem C09_merge_never_refuted_int_number :
@@ -174,6 +247,27 @@ Example C09_obj_example_never :
   let b := obj_of [([98%N], ty_only [TInteger])] [] (Some (SBool false)) in
   ofrag a = true /\ ofrag b = true /\ merge [] 4 a b = MNever.
 Proof. exact obj_example_never. Qed.
+
+(* nested objects + required + additionalProperties schema + closed inner member + an allOf member *)
+Example C09_obj_exact_example :
+  obj_frag TNumber ex_a = true /\ obj_frag TNumber ex_b = true /\
+  exists m, merge [] 6 ex_a ex_b = MOk m /\ obj_frag TNumber m = true
+            /\ Vd [] 0 m ex_v_ok = true /\ Vd [] 0 ex_a ex_v_ok = true /\ Vd [] 0 ex_b ex_v_ok = true
+            /\ Vd [] 0 m ex_v_bad1 = false /\ Vd [] 0 ex_b ex_v_bad1 = false
+            /\ Vd [] 0 m ex_v_bad2 = false /\ Vd [] 0 ex_b ex_v_bad2 = false
+            /\ wf_json ex_v_ok = true.
+Proof. exact obj_exact_example. Qed.
+
+Example C09_obj_never_example :
+  obj_frag TNumber ex_a = true /\ obj_frag TNumber ex_closed = true /\ merge [] 6 ex_a ex_closed = MNever.
+Proof. exact obj_never_example. Qed.
+
+Example C09_obj_perm_example :
+  exists m m', merge_all [] 8 [ex_a; ex_b; ty_only [TObject]] = MOk m
+               /\ merge_all [] 8 [ty_only [TObject]; ex_b; ex_a] = MOk m'
+               /\ Vd [] 0 m ex_v_ok = true /\ Vd [] 0 m' ex_v_ok = true
+               /\ Vd [] 0 m ex_v_bad1 = false /\ Vd [] 0 m' ex_v_bad1 = false.
+Proof. exact obj_perm_example. Qed.
 
 (* the empty enum of convert_never is uninhabited *)
 Example C09_never_type_uninhabited :
